@@ -378,7 +378,9 @@ def fam_enums(quick):
             vs = [Variant("UnitVar", "unit"), Variant("NewVar", "tuple", [Field("St")]),
                   Variant("StructVar", "named", [Field("i32", "field_one"), Field("St", "inner_st"), Field("u64", "type_over_ride", ['#[ts(type = "bigint")]']),
                                                  Field("Vec<St>", "as_it_is", ['#[ts(as = "Vec<St>")]']), Field("St", "inl_st", ["#[ts(inline)]"]),
-                                                 Field("Option<i32>", "opt_val", ["#[ts(optional)]", '#[serde(skip_serializing_if = "Option::is_none", default)]'])])]
+                                                 Field("Option<i32>", "opt_val", ["#[ts(optional)]", '#[serde(skip_serializing_if = "Option::is_none", default)]'])]),
+                  # serde wants untagged variants last
+                  Variant("UntVar", "named", [Field("i32", "field_three"), Field("bool", "other_one")], (["#[serde(untagged)]"] if rp != "untagged" else []))]
             out.append(one({"family": "enum-rename-all", "repr": rp, "rule": rule},
                            TypeDef("E", "enum", variants=vs, attrs=list(rattr) + [f'#[serde(rename_all = "{rule}")]'])))
             out.append(one({"family": "enum-rename-all-fields", "repr": rp, "rule": rule},
